@@ -68,6 +68,24 @@ func (k KeySpec) material() (priv, pub, cfg []byte) {
 	return priv, pub, c
 }
 
+// keyOptions hands the keys to NewConn the way callers may: spread over one or
+// several WithKeys options (options accumulate).
+func keyOptions(keys []ech.Key) []ech.Option {
+	if len(keys) < 2 {
+		return []ech.Option{ech.WithKeys(keys)}
+	}
+	// deterministic split derived from the key material itself
+	cut := 1 + int(keys[0].Config[len(keys[0].Config)/2])%(len(keys)-1)
+	if keys[0].PrivateKey[0]%3 == 0 {
+		return []ech.Option{ech.WithKeys(keys)}
+	}
+	opts := []ech.Option{ech.WithKeys(keys[:cut]), ech.WithKeys(keys[cut:])}
+	if len(keys[cut:]) > 1 && keys[0].PrivateKey[1]%2 == 0 {
+		opts = []ech.Option{ech.WithKeys(keys[:cut]), ech.WithKeys(keys[cut : cut+1]), ech.WithKeys(keys[cut+1:])}
+	}
+	return opts
+}
+
 func echKeys(specs []KeySpec) []ech.Key {
 	var out []ech.Key
 	for _, k := range specs {
@@ -277,7 +295,7 @@ func (lw *liveWorld) runConn(n int, ccfg *tls.Config) *connObs {
 		lw.guard(o, "front", func() {
 			ctx, cancel := context.WithTimeout(context.Background(), 30*time.Second)
 			defer cancel()
-			conn, err := ech.NewConn(ctx, fc, ech.WithKeys(lw.keys))
+			conn, err := ech.NewConn(ctx, fc, keyOptions(lw.keys)...)
 			if err != nil {
 				o.newConnErr = err
 				fc.Close()
@@ -441,6 +459,9 @@ func executeLive(t *testing.T, prop string, seed uint64, p *LivePlan) *core.Resu
 			lw.hello = append(lw.hello, chi)
 			lw.mu.Unlock()
 			return nil, nil
+		}
+		if p.ClientKey == -1 && p.Stale.PublicName != "" {
+			lw.pubs[p.Stale.PublicName] = true
 		}
 		var pubNames []string
 		for n := range lw.pubs {
